@@ -339,6 +339,20 @@ impl ParserDefinition for W {
         if action == 0 { SimulatedReduce::Reduce { states_to_pop: 1, nonterminal_produced: 0 } } else { SimulatedReduce::Accept }
     }
 }
+// R15: the statement of `Parser::parse` that turns the result of a reduction made with a real lookahead into the parse
+// result, extracted verbatim; parameters = its free variables.  C17: a failing `=>?` action's error is returned
+// unchanged, whatever its variant; C04/C01: a reduction that accepts while a token is still pending is `ExtraToken`
+// on exactly that token.
+/*<fn:Parser::parse#reduce_result>*/
+fn parse_reduce_result<D: ParserDefinition>(r: ParseResult<D>, lookahead: TokenTriple<D>) -> (res: ParseResult<D>)
+    ensures
+        r matches Err(e) ==> res == Err::<D::Success, ParseError<D>>(e),   // @C17
+        r is Ok ==> res == Err::<D::Success, ParseError<D>>(crate::ParseError::ExtraToken { token: lookahead }),   // @C04
+{
+//@ stmt sm Parser::parse kw return #3 Parser::parse#reduce_result
+}
+/*</fn:Parser::parse#reduce_result>*/
+
 /// the witness really is driven by the verified driver: `drive` type-checks against it and its precondition is met
 fn w_drive(tokens: std::vec::IntoIter<Result<(usize, u8, usize), ParseError<W>>>) -> ParseResult<W>
     requires tokens.obeys_prophetic_iter_laws()
